@@ -39,7 +39,7 @@ MAX_PATH_LEN = 12
 
 # (cfg, max number of paths replayed (None = whole cover))
 CFG = {
-    "quick": [("RtCrossQuick.cfg", 2000), ("RtSingleSet.cfg", 2000), ("RtPairsQuick.cfg", 2500)],
+    "quick": [("RtCrossQuick.cfg", 1700), ("RtSingleSet.cfg", 1700), ("RtPairsQuick.cfg", 2100)],
     "thorough": [("RtCrossSet.cfg", 16000), ("RtSingleSet.cfg", None), ("RtPairs.cfg", 15000),
                  ("RtPairsDomain.cfg", 13000), ("RtTriples.cfg", 6000)],
 }
